@@ -438,9 +438,20 @@ func runEcho(c *runner.Ctx, ec *echoCfg) *echoResult {
 		var err error
 		if !strings.HasPrefix(token, "u") && r.Intn(100) < ec.pBadValue {
 			c.Guard("Query.Exec", func() {
-				err = sess.Query("INSERT BAD /*"+token+"*/ ?", badMarshal{}).WithContext(ctx).Exec()
+				if ec.version >= 3 && r.Intn(4) != 0 {
+					// fails inside Conn.exec while the frame is being built (named values are refused in batches),
+					// i.e. after a stream id was taken and the call registered
+					b := sess.NewBatch(gocql.UnloggedBatch).WithContext(ctx)
+					b.Query("INSERT BAD /*"+token+"*/ ?", gocql.NamedValue("x", 1))
+					err = sess.ExecuteBatch(b)
+				} else {
+					err = sess.Query("INSERT BAD /*"+token+"*/ ?", badMarshal{}).WithContext(ctx).Exec()
+				}
 			})
 			cls := classifyErr(err)
+			if err != nil && strings.Contains(err.Error(), "named query values are not supported in batches") {
+				cls = "marshal-error"
+			}
 			if err == nil {
 				cls = "other:frame build failure returned no error"
 			}
